@@ -148,6 +148,13 @@ func writeEvidence(verifDir string, ev *Evidence) error {
 	if err := os.MkdirAll(dir, 0o755); err != nil {
 		return err
 	}
+	// keep the file readable whatever a world counts: at most 500 counters
+	// per map, the rest lumped together
+	for _, key := range []string{"reach_probes", "fault_kinds_fired"} {
+		if m, ok := ev.Coverage[key].(map[string]int); ok && len(m) > 500 {
+			ev.Coverage[key] = capCounters(m, 500)
+		}
+	}
 	b, err := json.MarshalIndent(ev, "", " ")
 	if err != nil {
 		return err
@@ -350,4 +357,30 @@ func (e *Env) conclude(prop string, a *Agg, binFor func(r *kernel.Result) (strin
 		out.exit = 1
 	}
 	return out, nil
+}
+
+// capCounters keeps the n largest counters and lumps the others together.
+func capCounters(m map[string]int, n int) map[string]int {
+	keys := make([]string, 0, len(m))
+	for k := range m {
+		keys = append(keys, k)
+	}
+	sort.Slice(keys, func(i, j int) bool {
+		if m[keys[i]] != m[keys[j]] {
+			return m[keys[i]] > m[keys[j]]
+		}
+		return keys[i] < keys[j]
+	})
+	out := make(map[string]int, n+1)
+	rest, restKeys := 0, 0
+	for i, k := range keys {
+		if i < n {
+			out[k] = m[k]
+		} else {
+			rest += m[k]
+			restKeys++
+		}
+	}
+	out[fmt.Sprintf("(%d further counters)", restKeys)] = rest
+	return out
 }
